@@ -362,8 +362,13 @@ class Validator:
 
 def search_probe_disagreement(ctx, tools, irx, glx, en, limit):
     """tie broken: run the probe programs themselves differentially on the boundary pool"""
-    P = glslprobe.probes()
-    progs = [("probe:%s/%s/%d" % (p["op"], p["kind"], p["n"]), glslprobe.program(p), ("boundary", "small")) for p in P]
+    def known_refuted(p):        # mirrors Glsl/Catalogue.v `refuted` (open findings, reported through the finding_* programs)
+        return ((p["op"] == "select" and p["n"] > 1) or (p["op"] == "abs" and p["kind"] == "u32")
+                or p["op"] in ("countLeadingZeros", "countTrailingZeros"))
+    P = [p for p in glslprobe.probes() if not known_refuted(p)]
+    # (fma: the ES form is unfused, which WGSL allows but differs from the fused reference in the last bit on arbitrary operands)
+    progs = [("probe:%s/%s/%d" % (p["op"], p["kind"], p["n"]), glslprobe.program(p),
+              ("small",) if p["op"] == "fma" else ("boundary", "small")) for p in P]
     rng = ctx.rng.fork("probe-search")
     progs = rng.shuffle(progs)[:limit]
     v = Validator(ctx, tools, irx, glx, en)
